@@ -215,6 +215,7 @@ func c19Loader(w *core.Worker, i int) {
 		_ = os.WriteFile(cur, append([]byte(opts+"\n"), data...), 0644)
 		s.Exec(fmt.Sprintf("SET @@ALLOW_UNEVEN_FIELDS TO %v;", uneven))
 		q := "SELECT * FROM " + from + " x;"
+		w.Step(60*time.Second, fmt.Sprintf("loader: %s [%s] over the %d bytes in %s", q, opts, len(data), cur))
 		res := s.Exec(q)
 		dg := core.Digest(string(data), opts)
 		viol := func(sig, what string) {
@@ -248,6 +249,7 @@ func c19Loader(w *core.Worker, i int) {
 		s.Exec("ROLLBACK;")
 		w.Case(dg, true)
 	}
+	w.Step(0, "")
 	w.Count("loader_inputs_loaded", int64(loaded))
 	w.Count("loader_inputs_rejected", int64(rejected))
 	if i < 2 {
@@ -523,6 +525,9 @@ func c19ProgramFuzz(w *core.Worker, i int) {
 	ok, failed := 0, 0
 	for k, p := range progs {
 		_ = os.WriteFile(cur, []byte(p), 0644)
+		// a program of this list needs milliseconds (the joins of 400 x 400 rows well under a second); one that is still
+		// running after a minute never ends (a lock taken twice, a loop that does not look at its context)
+		w.Step(60*time.Second, "program: "+p)
 		res := s.Exec(p)
 		viol := func(sig, what string) {
 			w.Violation(sig, fmt.Sprintf("%s: %s", truncateStr(p, 300), what), c19Replay{Kind: "program", Query: p, Detail: what})
@@ -550,10 +555,12 @@ func c19ProgramFuzz(w *core.Worker, i int) {
 		w.Case(core.Digest(p), !res.SynErr)
 		// a sample through the real binary: exit code set, stderr markers
 		if k%25 == 0 && !strings.HasPrefix(p, "TRIGGER ERROR") {
+			w.Step(150*time.Second, "program (real binary): "+p)
 			pr := core.RunProc(core.ProcOpts{Dir: w.Work, Args: csvqArgs("-q", "--wait-timeout", "1", p), Timeout: 60 * time.Second})
 			c19JudgeProc(w, pr, "program", p, nil)
 		}
 	}
+	w.Step(0, "")
 	w.Count("programs_succeeded", int64(ok))
 	w.Count("programs_failed_cleanly", int64(failed))
 	if i < 4 {
